@@ -152,6 +152,21 @@ class MultipartDecoder:
             % (LINE_BREAK, re.escape(boundary), LINE_BREAK, LINE_BREAK),
             re.MULTILINE,
         )
+        # The end of the buffer that may still grow into a boundary: a line
+        # break followed by a prefix of "--" + boundary, or by all of it and
+        # then dashes / horizontal whitespace.
+        delimiter = b"--" + boundary
+        self.pending_re = re.compile(
+            rb"%s(?:%s-{0,2}[^\S\n\r]*|%s)\Z"
+            % (
+                LINE_BREAK,
+                re.escape(delimiter),
+                b"|".join(
+                    re.escape(delimiter[:length])
+                    for length in range(len(delimiter) - 1, -1, -1)
+                ),
+            )
+        )
 
     def last_newline(self) -> int:
         try:
@@ -228,7 +243,15 @@ class MultipartDecoder:
                     data_length = match.start()
                     del_index = match.end()
                 else:
-                    data_length = del_index = self.last_newline()
+                    # The boundary text is in the buffer but not as a complete
+                    # delimiter. Only a trailing partial delimiter has to wait
+                    # for more bytes, everything before it is data (otherwise
+                    # a part such as CR + "--boundary" + megabytes without a
+                    # line break would be buffered whole).
+                    pending = self.pending_re.search(self.buffer)
+                    data_length = del_index = (
+                        len(self.buffer) if pending is None else pending.start()
+                    )
                 more_data = match is None
 
             data = bytes(self.buffer[:data_length])
